@@ -7,6 +7,7 @@ import (
 	"fmt"
 	"sort"
 	"strings"
+	"time"
 
 	"github.com/skycoin/skycoin/src/cipher"
 	"github.com/skycoin/skycoin/src/cipher/bip39"
@@ -51,13 +52,13 @@ type svcSim struct {
 	pws   [][]byte
 	tf    scriptedTF
 	// what the harness knows about wallets it created
-	pwOf     map[string][]byte // filename -> password it was last encrypted with
-	unloaded map[string]bool
-	names    []string
-	redo     func(svc *wallet.Service) error // repeats the last operation on another service (nil: result not a function of the arguments)
-	lastOpOK bool
+	pwOf           map[string][]byte // filename -> password it was last encrypted with
+	unloaded       map[string]bool
+	names          []string
+	redo           func(svc *wallet.Service) error // repeats the last operation on another service (nil: result not a function of the arguments)
+	lastOpOK       bool
 	redoIdempotent bool
-	scratch  int
+	scratch        int
 }
 
 func mnemonic(seed uint64, i int) string {
@@ -352,6 +353,13 @@ func runService(c *sim.Ctx) {
 		if withDiskErrors && t.Chance("disk-error", 1, 4) {
 			failAt = 1 + t.Int("disk-error-step", 3)
 			failCut = t.Int("disk-error-cut", 400) - 1
+		}
+		if t.Chance("svc-time-passes", 1, 4) {
+			// wallets carry timestamps with a resolution of one second: let the clock move between operations
+			d := time.Duration(1+t.Int("svc-sleep", 5)) * time.Second
+			time.Sleep(d)
+			c.SimNanos += int64(d)
+			c.Count("fault.clock_advance")
 		}
 		s.fs.begin(failAt, failCut)
 		label, err := s.doOp()
